@@ -927,3 +927,11 @@ Proof.
     + destruct (rpc_table false cache store) as [_ T2]. specialize (T2 _ app tok Hm). rewrite Hc in T2.
       destruct Hs as [Hs|Hs]; rewrite Hs in T2; rewrite T2; reflexivity.
 Qed.
+
+(* ---- rpc.Proxy ---- *)
+Lemma proxy_transparent strict cache store md :
+  authenticate strict cache store (proxy_md md) = authenticate strict cache store md.
+Proof.
+  destruct md as [[[|app apps] [|token tokens]]|]; simpl; try reflexivity.
+  destruct ((app =? 0)%N || (token =? 0)%N) eqn:E; simpl; [reflexivity|]. rewrite E. reflexivity.
+Qed.
